@@ -31,7 +31,8 @@ func randSubset(rng *rand.Rand, pool []string, max int) []string {
 }
 
 func randFilterCfg(rng *rand.Rand, d *gendoc.Doc) gendoc.FilterCfg {
-	tags := []string{"a", "b", "c", "x", "nosuch"}
+	// incl. spellings that differ from a document tag only in letter case (tag names are case-sensitive)
+	tags := []string{"a", "b", "c", "x", "nosuch", "A", "B", "X"}
 	ids := []string{"nosuchop"}
 	for _, p := range d.Paths {
 		for _, o := range p.Ops {
@@ -129,7 +130,7 @@ func sortPairs(l [][2]string) [][2]string {
 func runC16(r *Report, rng *rand.Rand, nHook, nE2E int) {
 	cases := NewCases("cases_C16", "From V Require Import Model.Prune Model.Filter Corr.Eval.",
 		"filter_cfg * doc * (list string * list (string * string) * list string)", "mismatches_prepare")
-	hookOpts := gendoc.GenOpts{MaxComps: 2, MaxPaths: 3, MaxDepth: 2, RefProb: 0.5, Tags: []string{"a", "b", "c", "x"}}
+	hookOpts := gendoc.GenOpts{MaxComps: 2, MaxPaths: 3, MaxDepth: 2, RefProb: 0.5, Tags: []string{"a", "b", "c", "x", "A", "C"}}
 	for i := 0; i < nHook+nE2E; i++ {
 		e2e := i >= nHook
 		opts := hookOpts
